@@ -124,6 +124,16 @@ def _solve_layouts(r, cop, y, v, sig, case, fam, th):
             r.violation(f'{sig}:shortcut:ppf', f'{fam} theta={th}: ppf(y, v) differs from percent_point(y, v)', case=case)
     except Exception as e:
         r.violation(f'{sig}:vector-raises:{type(e).__name__}:repeat', f'{fam} theta={th}: repeated call raised {e}', case=case)
+    # the empty batch: zero rows give zero roots (narrow float inputs are NOT compared: the closed-form Clayton inverse of the
+    # unchanged library already computes in the dtype of its input)
+    r.tr()
+    try:
+        e_ = np.asarray(cop.percent_point(np.array([], dtype=float), np.array([], dtype=float)), float)
+        if e_.shape != (0,):
+            r.violation(f'{sig}:shape:empty', f'{fam} theta={th}: percent_point of zero rows returned shape {e_.shape}', case=case)
+    except Exception as e:
+        r.violation(f'{sig}:vector-raises:{type(e).__name__}:empty', f'{fam} theta={th}: percent_point of zero rows raised '
+                    f'{type(e).__name__}: {e}', case=case)
     # the same vectors handed over as pandas Series whose index labels are a permutation of 0..n-1 (positional meaning)
     import pandas as pd
     lab = np.argsort((np.arange(n) * 104729) % n, kind='stable')
